@@ -22,6 +22,7 @@ pub mod c17;
 pub mod c18;
 pub mod c19;
 pub mod c20;
+pub mod cli;
 
 pub fn dispatch(name: &str, args: &Args) -> i32 {
     match name {
@@ -46,6 +47,7 @@ pub fn dispatch(name: &str, args: &Args) -> i32 {
         "c18" => c18::run(args),
         "c19" => c19::run(args),
         "c20" => c20::run(args),
+        "cli" => cli::run(args),
         _ => {
             eprintln!("unknown driver {}", name);
             2
